@@ -497,6 +497,24 @@ def hostile_templates_session(g):
     ops.append(call("A", g.v9_hdr(2) + b16(tid) + b16(r.choice([0, 1, 2, 3])) + g.set_(tid, g.rbytes(8))))
     ops.append(call("A", g.v9_hdr(0) + g.set_(0, b16(262) + b16(1) + b16(8) + b16(4))))
     ops.append(call("A", g.v9_hdr(0) + g.set_(r.choice([256, 257, 258]), g.rbytes(16))))
+    # value kinds that re-export losslessly (addresses, unsigned numbers, opaque bytes), declared at widths they do not
+    # naturally have: whatever is accepted must still re-export to the bytes received (C09 / C10 speak of every accepted
+    # packet), and no lossy kind is there to explain a difference
+    for proto in ("v9", "ipfix"):
+        tid = r.choice([263, 264])
+        n = r.choice([1, 1, 2, 3])
+        fs = [(r.choice([8, 12, 15, 27, 28, 62, 1, 2, 10, 999]), r.choice([1, 2, 3, 5, 6, 8, 12, 16, 20])) for _ in range(n)]
+        if r.random() < 0.5:
+            fs.insert(r.randrange(len(fs) + 1), (r.choice([8, 12, 27, 28]), r.choice([4, 16])))
+        rec = b16(tid) + b16(len(fs)) + [x for t, l in fs for x in b16(t) + b16(l)]
+        size = sum(l for _, l in fs)
+        body = g.rbytes(size * r.choice([1, 2, 3]) + r.choice([0, 0, 1, 2, 3]))
+        if proto == "v9":
+            ops.append(call("A", g.v9_hdr(1) + g.set_(0, rec)))
+            ops.append(call("A", g.v9_hdr(1) + g.set_(tid, body)))
+        else:
+            ops.append(call("A", g.ix_msg([g.set_(2, rec)])))
+            ops.append(call("A", g.ix_msg([g.set_(tid, body)])))
     return ops
 
 
